@@ -86,7 +86,9 @@ def run(ctx):
             P = 10 ** rng.uniform(-1, 4)
         punit = [u.day, u.yr, u.hour][rng.integers(0, 3)]
         trk = str(rng.choice(["default", "explicit"]))
-        t_ref = None if trk == "default" else Time(base + rng.uniform(-300, 300), format="mjd", scale="tcb")
+        # an explicit reference epoch may be on any time scale (astropy's default is UTC)
+        t_ref = None if trk == "default" else Time(base + rng.uniform(-300, 300), format="mjd",
+                                                   scale=str(rng.choice(["tcb", "utc", "tdb", "tt"])))
         order = rng.permutation(len(t))
         try:
             data = RVData(t[order], (np.arange(len(t)) * 1.0)[order] * u.km / u.s,
@@ -95,7 +97,8 @@ def run(ctx):
             P_day = Pq.to_value(u.day)
             s = JokerSamples()
             s["P"] = np.atleast_1d(Pq)
-            t_ref_b = data._t_ref_bmjd
+            # the reference instant as BMJD from what was passed in, not from the object's private copy
+            t_ref_b = float(t_ref.tcb.mjd) if t_ref is not None else float(np.min(t))
             ph = ref_phases(data._t_bmjd, t_ref_b, P_day)
             desc = dict(index=i, n=len(t), style=style, regime=regime, P_day=P_day, P_unit=str(punit),
                         t_ref=trk, t=data._t_bmjd[:8], t_ref_bmjd=t_ref_b)
